@@ -10,9 +10,15 @@ CFG = {
                   "DAG: a read returns the from-scratch value of the current wiring and parameters, under EVERY dependency "
                   "enumeration order; with the repaired (sorted) order a node that has executed does not execute again until "
                   "a parameter in its cone is set or a node of its cone is re-wired; Version() = number of executions; the "
-                  "pinned map order admits a spurious execution (witness). The model is tied to the Go code on every run by "
+                  "pinned map order admits a spurious execution (witness). Round 4: reads are TOTAL and fresh under EVERY permutation "
+                  "order; a second read of a node (or of any node of its cone) leaves the whole node table unchanged; during one "
+                  "read every node executes at most once and its version grows by exactly that (refuted for the map order: a "
+                  "diamond executes the shared node twice in one read); State() is complete: right after a parameter update or a "
+                  "re-wiring every node whose cone contains the target reports Stale. The model is tied to the Go code on every run by "
                   "evaluating it (vm_compute) on the implementation's histories (value, Version(), State(), execution counter "
-                  "of ALL nodes after EVERY operation) and by a direct oracle on the implementation's output",
+                  "of ALL nodes after EVERY operation) and by a direct oracle on the implementation's output "
+                  "(freshness incl. panic outcome, executions only when the cone was touched, version = executions, State() of every "
+                  "node = touched-since-last-execution)",
     "level_note": "Totality of reads and three-outcome freshness (value / error-value / panic, both directions) are proved; the panic theorems assume a stable enumeration order (any-order: value direction only). Trusted: Coq kernel + vm_compute; hand-written model tied by differential correspondence only (generator "
                   "quality bounds it); node values are ints and processors are harness-defined (order-sensitive polynomial "
                   "hash); the theorems quantify over arbitrary processor functions that read every input port in "
@@ -20,7 +26,7 @@ CFG = {
     "technique": "Coq proof (invariants over operation histories of a fuel-recursive model of Struct.Value/Outdated) + vm_compute correspondence check",
     "design_ref": "DESIGN.md §4 C11, §5 entry 12",
     "n_quick": 150, "n_thorough": 1000,
-    "rule": "12 fixed histories (4-input node with 240 idle reads, 12-element array port with delete/append/clear, upstream "
+    "rule": "17 fixed histories (4-input node with 240 idle reads, 12-element array port with delete/append/clear, upstream "
             "re-wiring, zero-input nodes, chain read repeatedly, only-the-last-dependency changes, failing node in a "
             "non-terminal position with the parameter toggling between rejected and accepted values and consumers read "
             "without reading the failed node, node with two array ports and plain ports before/between/after them at "
@@ -30,18 +36,20 @@ CFG = {
             "interface next to a NodeOutput field, slice/map/struct-valued parameter.Value nodes with update messages that "
             "are REJECTED after a valid prefix) + random histories of "
             "30-90 (thorough 40-220) operations on graphs of 4-12 (thorough 4-40) nodes of 10 harness-defined struct kinds, one third of them with a processor that returns an error when its hash is divisible by 3, one quarter with a processor that panics when it is divisible by 5 (the harness recovers the panic at the read: third outcome) "
-            "(1-6 scalar ports, array ports, mixed) and both repository parameter kinds (parameter.Value[int], nodes.ValueNode) plus parameter.Value[[]int] / [map[string]int] / [struct] seen through an int-hash adapter; rejected update messages 4%; "
+            "(1-6 scalar ports, array ports, mixed), one third built by nodes.NewStruct, and every repository parameter kind (parameter.Value[int] plain and flag-initialised, nodes.ValueNode; parameter.Value[[]int] / [map[string]int] / [struct] / [string] / [float64] / [bool] / [vector3.Float64] / [[]vector3.Float64] and parameter.File seen through an int-hash adapter), one third with 1-2 subscribers; update messages are handed over in a buffer that is overwritten after ApplyMessage returns; 1/8 of the updates set the zero value; one third of the connections wire the node itself or a renamed output instead of Out(); rejected update messages 4%; "
             "shapes chain / diamond / array fan-in (9-15 connections, names sort V.10 < V.2) / scalar fan-in / shared "
             "subgraph / random; operations: reads 34%, parameter updates 18% (1/6 with the same value), connects 20%, "
             "disconnects 10% (array delete at index, '+k', '0k', clear), runs of 3-10 idle reads 8%, invalid port names / "
             "indices 5% (must be rejected), read-everything 5%; cycle-closing connects are dropped by the generator; "
             "distinct by history; non-trivial = at least one executing read and one edit",
     "trusted": ["execution counters are counted by the harness-defined Process() methods",
+                "the harness checks Outdated() == (State() == Stale) on every struct node after every operation itself (Go side)",
                 "prop_ok evaluates the verified eval_scratch in Coq on the wiring tracked from the operations alone "
                 "(port edits by the documented meaning of SetInput), plus an independent from-scratch evaluation in Go"],
     "modelled": ["reflection helpers of refutil (SetStructField / AddToStructFieldArray / RemoveFromStructFieldArray / "
                  "FieldValuesOfType*) are modelled as list edits of named ports; declared panics of reflect are 'rejected'",
                  "Go map iteration order is modelled as an arbitrary permutation oracle",
+                 "a parameter is (version, value): the three sources of parameter.Value.Value() (applied message, parsed flag, default) are exercised by a flag-initialised kind but the model starts from the resulting value; FromJSON / ToJSON / Schema / Swagger (graph loading, documentation) are outside the histories; there is no node type with more than one output port in this snapshot (a StructOutput under another name serves the same value and is exercised)",
                  "subscriptions (Alert) are not modelled; the error component of Process() is write-only in the code (never returned by Value/State/Version/Outdated): the model keeps the value component, failing harness processors return a value no successful run produces"],
 }
 
